@@ -182,6 +182,9 @@ func (c ConfigSpec) Bytes() (Config, error) {
 	if l := len(c.PublicName); l == 0 || l > 255 {
 		return nil, errors.New("invalid public name length")
 	}
+	if c.Version != 0xfe0d {
+		return nil, errors.New("unsupported version")
+	}
 	if !validPublicName(c.PublicName) {
 		return nil, errors.New("invalid public name")
 	}
